@@ -933,7 +933,7 @@ pub fn gen_profile(rng: &mut Rng, t: &T, kind: ProfKind) -> [Named; 2] {
                 ProfKind::Tiny => {
                     let k = rng.below(n as u64) as usize;
                     (0..n)
-                        .map(|i| if i == k { 1.0 } else { *rng.pick(&[1e-310, 5e-324, 1e-300, 0.0, 2.5e-308, 0.25]) })
+                        .map(|i| if i == k { 1.0 } else { *rng.pick(&[1e-310, 5e-324, 1e-300, 0.0, 2.5e-308, 0.25, 1e-20, 1e-17, 3e-16]) })
                         .collect()
                 }
                 ProfKind::Zeros => {
